@@ -17,6 +17,9 @@ def parseOp (t : List String) : Option Op :=
   | ["setslice", s, i, j, us] => do pure (.setSlice (← nat? s) (← optInt? i) (← optInt? j) (← natList? us))
   | ["delitem", s, i] => do pure (.delItem (← nat? s) (← int? i))
   | ["delslice", s, i, j] => do pure (.delSlice (← nat? s) (← optInt? i) (← optInt? j))
+  | ["setsliceext", s, i, j, k, us] => do
+      pure (.setSliceExt (← nat? s) (← optInt? i) (← optInt? j) (← int? k) (← natList? us))
+  | ["delsliceext", s, i, j, k] => do pure (.delSliceExt (← nat? s) (← optInt? i) (← optInt? j) (← int? k))
   | ["pop", s, i] => do pure (.pop (← nat? s) (← int? i))
   | ["remove", s, u] => do pure (.remove (← nat? s) (← nat? u))
   | ["clear", s] => do pure (.clear (← nat? s))
@@ -36,6 +39,7 @@ def showNav : Nav → String
   | .unit u => s!"u{u}"
   | .valueError => "ValueError"
   | .indexError => "IndexError"
+  | .loop => "Loop"
 
 /-- full dump: for every unit `parent|children` -/
 def dump (st : TState) : String :=
@@ -49,6 +53,9 @@ def handle (st : TState) (line : String) : TState × String :=
   | ["nav", u] => match nat? u with
     | some u => (st, s!"{showNav (prev st u)} {showNav (next st u)}")
     | none => (st, "bad-op")
+  | ["navof", u, q] => match nat? u, nat? q with
+    | some u, some q => (st, s!"{showNav (prevOf st u q)} {showNav (nextOf st u q)}")
+    | _, _ => (st, "bad-op")
   | ["bylabel", s, l] => match nat? s, nat? l with
     | some s, some l => (st, match byLabel st s l with | some u => s!"u{u}" | none => "KeyError")
     | _, _ => (st, "bad-op")
